@@ -51,6 +51,7 @@ type FuncContract struct {
 	File      string
 	Line      int
 	Requires  []Clause
+	Assumes   []Clause // unchecked assumptions at entry (machine-arithmetic bounds); never imposed on callers, always reported
 	Ensures   []Clause
 	Modifies  []*SExpr
 	HasMod    bool
@@ -79,6 +80,7 @@ type PureFunc struct {
 	Src      string
 	Rec      bool
 	Abstract bool // no body: uninterpreted
+	Stable   bool // abstract function that does not depend on the object's state version
 	File     string
 	Line     int
 }
@@ -116,7 +118,7 @@ type ContractFile struct {
 }
 
 var clauseKeywords = map[string]bool{
-	"func": true, "pure": true, "lemma": true, "requires": true, "ensures": true, "modifies": true,
+	"func": true, "pure": true, "lemma": true, "requires": true, "assumes": true, "ensures": true, "modifies": true,
 	"loop": true, "inline": true, "mode": true, "recovers": true, "diverges": true, "trusted": true,
 	"nosafe": true, "use": true, "monitor": true, "ghost": true, "case": true, "secret": true,
 	"sink": true, "flag": true, "const": true, "protects": true, "invariant": true, "abstract": true,
@@ -204,11 +206,17 @@ func ParseContractFile(path string) (*ContractFile, error) {
 			cf.Funcs = append(cf.Funcs, curF)
 			curL, curM = nil, nil
 		case w == "pure" || w == "abstract":
+			stable := false
+			if strings.HasPrefix(rest, "stable ") {
+				stable = true
+				rest = strings.TrimSpace(strings.TrimPrefix(rest, "stable "))
+			}
 			pf, err := parsePure(strings.TrimSpace(strings.TrimPrefix(rest, "func")))
 			if err != nil {
 				return nil, fail(l, "%v", err)
 			}
 			pf.File, pf.Line = path, l.n
+			pf.Stable = stable
 			if w == "abstract" {
 				pf.Abstract = true
 			}
@@ -260,6 +268,15 @@ func ParseContractFile(path string) (*ContractFile, error) {
 			cf.Secrets = append(cf.Secrets, strings.Fields(rest)...)
 		case w == "sink":
 			cf.Sinks = append(cf.Sinks, strings.Fields(rest)...)
+		case w == "assumes":
+			c, err := parseClause(l, rest)
+			if err != nil {
+				return nil, err
+			}
+			if curF == nil || c.Label == "" {
+				return nil, fail(l, "assumes needs a function and a label")
+			}
+			curF.Assumes = append(curF.Assumes, c)
 		case w == "requires" || w == "ensures":
 			c, err := parseClause(l, rest)
 			if err != nil {
